@@ -371,7 +371,7 @@ fn observe_arch<A>(w: &mut VW, step: u64, max_dump: usize, minted: &mut Vec<Enti
 where
     A: AOps + AKey<Entity<A>> + AKey<EntityAny> + ATyped<Entity<A>>,
 {
-    let sp = ((step + A::IDX as u64) % 15) as u8;
+    let sp = ((step + A::IDX as u64) % 16) as u8;
     let mv = step % 4;
     let (len, cap, emp) = { let a = A::arch(w); (a.len(), a.capacity(), a.is_empty()) };
     let snap = guard(|| A::snapshot(w, sp));
